@@ -1,5 +1,6 @@
 """extra-conscfg: console configuration and decoration (DESIGN.md section 5 item 3).
-Specs: specs/conscfg/{ConsCfg,ConsSelModel,MCConsSel,ConsDecModel,MCConsDec,ConsCfgTrace}.tla (+ specs/console/Console.tla by INSTANCE).
+Specs: specs/conscfg/{ConsCfg,ConsSelModel,MCConsSel,ConsDecModel,MCConsDec,ConsCfgTrace}.tla 
+(ConsoleBase.tla = the family's own snapshot of the pixel / diff / Write operators of the C19 module specs/console/Console.tla).
 
  S1 font.FindByName / font.BestFit / logo.BestFit selection rules      (packages font, logo)
  S2 hal.onConsoleInit: boot command line overrides, capabilities        (package hal)
@@ -25,7 +26,7 @@ CONS_FILES = dict(SHIMS)
 CONS_FILES.update({CONS + "/font/zz_verif_xcf_font_test.go": "conscfg/xcf_font_test.go",
                    CONS + "/logo/zz_verif_xcl_logo_test.go": "conscfg/xcl_logo_test.go",
                    CONS + "/zz_verif_xcc_console_test.go": "conscfg/xcc_console_test.go"})
-SPECS = ("conscfg", "console")
+SPECS = ("conscfg",)     # self-contained: ConsoleBase.tla is the family's snapshot of the C19 operators it uses
 
 SEL_BUGS = ["NameLastWins", "NameUnknownFirst", "FontIgnoresHeight", "FontTieKeepsFirst", "FontNoPriority", "FontDocRule", "FontPrioStrict",
             "LogoThresholdWidth", "LogoThresholdEighth", "LogoNoAbs", "LogoTieLastWins", "CmdFirstWins", "CmdBareIsEmpty", "CmdExtraPartsKept",
